@@ -4,7 +4,9 @@ real lib/breaker (black-box, virtual clock, forced coin) and on the built-in int
 middleware, api/httpc client, sqlx, redis over miniredis, gRPC codes / client / server interceptors).
 Call kinds carry the caller's acceptable-predicate as a set of accepted results (so "success iff the
 predicate says so" is checked for predicates that reject nil / accept everything / accept one error),
-the gRPC rows carry the error VALUE (status / wrapped / plain / context / foreign GRPCStatus type)."""
+the gRPC rows carry the error VALUE (status / wrapped / plain / context / foreign GRPCStatus type), the Allow +
+Promise.Reject rows carry the class of the REASON text (short / empty / long / line breaks and verbs), the breaker name
+carries how the instance was made (registry Get / New(WithName) / New())."""
 import json, os, re, subprocess
 from concurrent.futures import ThreadPoolExecutor
 from vlib import core
@@ -36,8 +38,10 @@ META = dict(
          "table of benign outcomes of the integrations) and is model-checked with TLC; spec/BreakerGen.tla enumerates "
          "every behaviour of bursts of calls (all Do*/Allow variants x nil/error A/error B/panic x every acceptable-"
          "predicate over those results - all 8 subsets, e.g. one that rejects nil, one that accepts everything, one that "
-         "accepts a single error - adversarial or lenient coin) interleaved with clock advances around the ageing boundaries, over registry and private "
-         "breakers incl. NoBreakerFor and parallel bursts, plus seeded long simulations; every call is executed on the "
+         "accepts a single error - and Allow + Promise.Accept / Promise.Reject(reason) for every class of reason text: "
+         "short, empty, long, with line breaks / format verbs - adversarial or lenient coin) interleaved with clock advances around the ageing boundaries, over registry and private "
+         "breakers (registry Get / package-level functions, New(WithName), New()) incl. NoBreakerFor and parallel bursts, "
+         "a family of promise-only behaviours (every reason class opening a burst on each kind of instance), plus seeded long simulations; every call is executed on the "
          "real breaker through its public API and compared with the prediction: protected function ran, fallback ran "
          "and its argument, returned error / re-raised panic, whether the coin was consulted and the exact drop "
          "probability (which reveals successes/total black-box). The same engine replays the integration table "
@@ -62,7 +66,10 @@ META = dict(
          "constant GrpcUnwraps; the drivers stop with a harness error if the linked library disagrees with the table). "
          "api/httpc: 1xx interim responses never reach the caller and are not generated; 'refused' is a dial error "
          "injected in the client's transport dialer. A vacuity guard (only when nothing disagreed) requires that all 64 "
-         "(predicate, result) kinds and every integration row were executed. "
+         "(predicate, result) kinds, every integration row and Accept / Reject(every reason class) on each of the three "
+         "kinds of breaker instance were executed. The text of a Reject reason and the text of an error (each error class "
+         "of the core rows has values with a short, an empty and a long message, picked per call from the seed) are "
+         "diagnostic only: the content of the error report of the logging wrapper (stat.Report) is not checked. "
          "A promise that is neither accepted nor rejected, scan errors of sqlx and the MySQL duplicate-"
          "entry error (benign only by option, not listed by the statement: either classification is accepted, so it "
          "is not generated) are outside the statement. The sqlx table runs every operation x outcome on three "
@@ -76,7 +83,8 @@ META = dict(
 FINISH = dict(rule="behaviours = complete TLC enumeration (BFS over the history variable) of macro-steps "
                    "[burst of n calls | clock advance | NoBreakerFor] up to MaxSteps, each closed by a probe that reveals "
                    "(successes,total); plus seeded TLC simulation of longer behaviours; plus one behaviour per "
-                   "(integration, outcome) of the benign table; every call of every behaviour is compared with the "
+                   "(integration, outcome) of the benign table; plus the complete enumeration of promise-only behaviours "
+                   "(Accept / Reject x 4 reason classes x 3 kinds of breaker instance, every rotation of the reasons); every call of every behaviour is compared with the "
                    "specification's prediction; traces = concurrent histories (one fresh breaker, 2-4 goroutines x 1-3 calls "
                    "between sequential preload and probe calls) validated event by event against BreakerTrace.tla")
 
@@ -137,12 +145,12 @@ def integ_kinds(ctx):
 
 def gen(ctx, name, names='{"a"}', reg='{"a"}', maxsteps=3, ns="{1,6,20}", ds="{1,3,4,156,157,159,160}", rots="{0}",
         parns="{}", coins="{TRUE,FALSE}", advadv=False, dis=False, integ="{}", simulate=None, depth=None, timeout=1500,
-        succ="CoreKindsSucc", fail="CoreKindsFail"):
+        succ="CoreKindsSucc", fail="CoreKindsFail", workers=6, heap="6g"):
     K = dict(REAL, Names=names, RegNames=reg, MaxSteps=maxsteps, Ns=ns, Ds=ds, Rots=rots, ParNs=parns,
              GrpcUnwraps=grpc_unwraps(), SuccSeq=succ, FailSeq=fail, Coins=coins, AdvAdv=advadv, WithDisable=dis, IntegKinds=integ)
     cfg = core.render_cfg(spec="GSpec", constants=K, invariants=["Emit"])
     r = ctx.tlc("BreakerGen", cfg, constants=K, name=name, simulate=simulate, depth=depth, timeout=timeout,
-                workers=(1 if simulate else 6), heap="6g")
+                workers=(1 if simulate else workers), heap=heap)
     return r.printed
 
 
@@ -153,7 +161,8 @@ def mc(ctx):
              'Kd("doacc","ok",6)', 'Kd("http","499",499)', 'Kd("grpc_unary","Internal",13)', 'Kd("grpc_unary","plain",200)',
              'Kd("sql_exec","norows",0)']
     if not ctx.quick:
-        kinds += ['Kd("dofbacc","acc",3)', 'Kd("http","500",500)', 'Kd("redis","other",0)']
+        # allow reject 1: Promise.Reject with an empty reason
+        kinds += ['Kd("dofbacc","acc",3)', 'Kd("http","500",500)', 'Kd("redis","other",0)', 'Kd("allow","reject",1)']
     K["Kinds"] = "{" + ", ".join(kinds) + "}"
     props = ["RejectOnlyOnExcess", "AgedOut", "KeepsFailing", "RejectedRunsNothing", "AdmittedRecordsOne",
              "BenignNeverTowardsOpen", "NopNeverRejects"]
@@ -217,8 +226,11 @@ def replay_chunks(ctx, drv, binp, cases, label, chunk=30000, shards=8):
         for k, v in cnt.items():
             if k.startswith("kind."):
                 KIND_COUNTS[k[5:]] = KIND_COUNTS.get(k[5:], 0) + v
+            elif k.startswith("pkind."):
+                KIND_COUNTS["@" + k[6:]] = KIND_COUNTS.get("@" + k[6:], 0) + v
 
 
+REASONS = (0, 1, 2, 3)   # classes of the reason handed to Promise.Reject (spec/Breaker.tla: short, empty, long, line breaks / verbs)
 KIND_COUNTS = {}   # "api.oc.n" -> calls of that kind executed sequentially on the real code (reported by the drivers)
 
 
@@ -230,7 +242,10 @@ def vacuity(ctx, ks):
         return
     want = ["%s.%s.%d" % (api, oc, n) for api in ("doacc", "dofbacc") for oc in ("ok", "acc", "err", "panic") for n in range(8)]
     want += ["%s.%s.0" % (api, oc) for api in ("do", "dofb") for oc in ("ok", "acc", "err", "panic")]
-    want += ["allow.accept.0", "allow.reject.0"]
+    want += ["allow.accept.0"] + ["allow.reject.%d" % r for r in REASONS]
+    # the promise family on every kind of breaker instance (first letter of the name: a = registry Get,
+    # p = New(WithName), q = New()): Accept and Reject with every class of reason
+    want += ["@%s.%s" % (nm, k) for nm in "apq" for k in ["accept.0"] + ["reject.%d" % r for r in REASONS]]
     for k in ks:
         m = re.match(r'Kd\("([^"]*)","([^"]*)",(\d+)\)$', k)
         want.append("%s.%s.%s" % m.groups())
@@ -277,6 +292,14 @@ def run(ctx):
     # gP: the acceptable-predicate family - every (predicate, result) of DoWithAcceptable / DoWithFallbackAcceptable
     # (and their registry forms) meets a closed window, a rejectable window with a lenient and with an adversarial coin
     pred = dict(succ="PredKindsSucc", fail="PredKindsFail")
+    # gW: the promise family - Allow + Accept / Reject(reason) for every class of reason (short, empty, long, line
+    # breaks / format verbs) on every kind of breaker instance (a = registry Get, p = New(WithName), q = New()): every
+    # reason opens a burst (Rots), on a closed and on a rejectable window with both coins; NoBreakerFor on the registry name
+    prom = dict(succ="PromiseKindsSucc", fail="PromiseKindsFail", names='{"a","p","q"}', dis=True, workers=2, heap="2g")
+    if ctx.quick:
+        wplan = dict(prom, maxsteps=2, ns="{1,9}", ds="{160}", rots="{0,1,2,3}")
+    else:
+        wplan = dict(prom, maxsteps=2, ns="{1,2,9,20}", ds="{3,160}", rots="{0,1,2,3}")
     if ctx.quick:
         plans = [("gA", dict(maxsteps=4, ns="{1,6,20}", ds="{1,3,157,159,160}")),
                  ("gB", dict(names='{"a","p"}', maxsteps=3, ns="{2,7}", ds="{3,160}", parns="{8}", dis=True)),
@@ -295,11 +318,15 @@ def run(ctx):
                 ("sB", dict(names='{"a","b","p"}', reg='{"a","b"}', maxsteps=10, ns="{1,6,20,40}", ds="{1,3,120,157,159,160}",
                             parns="{16}", dis=True, advadv=True, rots="{0,4}"), 250, 12)]
     fsims = [(name, pool.submit(gen, ctx, name, simulate=num, depth=depth, **kw)) for name, kw, num, depth in sims]
+    # (after the simulations: they are the long pole of the pool)
+    fw = [("gW", pool.submit(gen, ctx, "gW", **wplan))]
+    if not ctx.quick:
+        fw.append(("gW3", pool.submit(gen, ctx, "gW3", **dict(prom, maxsteps=3, ns="{9}", ds="{160}", rots="{0,1,2,3}"))))
     for name, kw in plans:
         cases = gen(ctx, name, **kw)
         ctx.samples += core.sample_of(cases, 1)
         replay_chunks(ctx, "core", bins["core"], cases, name)
-    for name, fut in fsims:
+    for name, fut in fw + fsims:
         cases = settle(ctx, fut)
         if cases is None:
             continue
